@@ -30,6 +30,8 @@ class WsConnT:
         self.handler_done = False
         self.proto = []
         self.on_frame = None
+        self.on_accept = None
+        self.on_close = None
 
     # client side actions
     def send(self, frame):
@@ -67,6 +69,8 @@ class TWebSocket:
         self.conn = environ['vf.ws']
         self.conn.accepted = True
         self.conn.accept_clk = self.sim.tick()
+        if self.conn.on_accept is not None:
+            self.conn.on_accept(self.conn)
         try:
             return self.handler(self)
         finally:
@@ -116,6 +120,8 @@ class TWebSocket:
         if not c.server_closed:
             c.server_closed = True
             c.close_clk = self.sim.tick()
+            if c.on_close is not None:
+                c.on_close(c)
             # a local close ends the read side whatever the peer does
             # (simple-websocket / eventlet wake a blocked receive())
             c.q.put(CLOSED)
@@ -165,10 +171,11 @@ class SimT(SimBase):
                  seed=0, prefix=None, yield_prob=0.0, backend='greenlet',
                  ws_close_mode='none', ws_read_timeout=False,
                  websocket_available=True, validate=False, host='srv.test',
-                 scheme='http', app_kwargs=None):
+                 scheme='http', app_kwargs=None, sched=None):
         import engineio
         import engineio.socket as esocket
-        self.sched = vsched.Sched(policy, seed, prefix, yield_prob, backend)
+        self.sched = sched or vsched.Sched(policy, seed, prefix, yield_prob,
+                                           backend)
         self._init_base(handler_cfg)
         self.ws_close_mode = ws_close_mode
         self.ws_read_timeout = ws_read_timeout
@@ -310,6 +317,25 @@ class SimT(SimBase):
             finally:
                 t.finish()
         t.task = self.sched.spawn(run, name='app-' + name)
+        return t
+
+    def app_seq(self, calls):
+        """One application task making the calls one after the other."""
+        t = Ticket(self, 'app', {'call': 'seq', 'n': len(calls)})
+        self.tickets.append(t)
+
+        def run():
+            try:
+                for name, args in calls:
+                    getattr(self.server, name)(*args)
+            except vsched.TaskKilled:
+                raise
+            except BaseException as e:
+                t.exc = e
+                t.exc_tb = _tb()
+            finally:
+                t.finish()
+        t.task = self.sched.spawn(run, name='app-seq')
         return t
 
     def app_sync(self, name, *args):
